@@ -2,7 +2,8 @@
 (* C09 as operators over an observable record r = [scn |-> ..., obs |-> ...].            *)
 (*   scn.force   "none" (pool default) | "false" (user disabled forced termination)       *)
 (*   scn.ops     the history (add:<kind> addfail dup:<wid> attach:<kind> run runp         *)
-(*               restart kill:<wid> stick:<wid> close terminate exc; closeint / termint = *)
+(*               runint (run left through a BaseException) restart restartg (force=False)  *)
+(*               kill:<wid> stick:<wid> close terminate exc; closeint / termint =          *)
 (*               close / terminate cut short by an exception in the closing thread)       *)
 (*   obs.steps   one record per executed operation:                                       *)
 (*     op        the operation                                                            *)
@@ -24,13 +25,16 @@ EXTENDS Naturals, Sequences
 
 Steps(r) == {r.obs.steps[k] : k \in 1..Len(r.obs.steps)}
 IsAdd(op) == op \in {"add", "addfail", "dup", "attach"}
+IsReg(op) == IsAdd(op) \/ op \in {"restart", "restartg"}       \* calls that (re-)register workers
 IsRun(op) == op \in {"run", "runp"}
+\* the closing call is over: it returned, or raised by itself (closeint / termint are cut short from outside)
+ClosingOver(s) == s.closing = "T" /\ (s.outcome = "ok" \/ (s.outcome = "raised" /\ s.op \notin {"closeint", "termint"}))
 
-AllDeadS(r, s)          == (s.closing = "T" /\ s.outcome = "ok" /\ r.scn.force # "false") => s.alive_owned = 0
+AllDeadS(r, s)          == (ClosingOver(s) /\ r.scn.force # "false") => s.alive_owned = 0
 RunIsolatedS(r, s)      == IsRun(s.op) => (s.extra = 0 /\ s.spoiled = 0)
 NoWorkToDeadS(r, s)     == IsRun(s.op) => s.dead_got_work = 0
 RestartedGetWorkS(r, s) == (IsRun(s.op) /\ s.outcome = "ok") => s.restarted_no_work = 0
-NoLeakS(r, s)           == (IsAdd(s.op) /\ s.outcome = "raised") => s.live_unreg = 0
+NoLeakS(r, s)           == (IsReg(s.op) /\ s.outcome = "raised") => s.live_unreg = 0
 
 C09_AllDead(r)          == \A s \in Steps(r) : AllDeadS(r, s)
 C09_RunIsolated(r)      == \A s \in Steps(r) : RunIsolatedS(r, s)
